@@ -386,6 +386,16 @@ def check_files(ctx, case):
         compare_group(ctx, lb[case['canon']]['thermochem'], wantB0, label, 'source-changed-through-third-library')
     except Exception as e:
         ctx.fail('third-library-update-raises:%s' % type(e).__name__, '[%s] %s: %s' % (label, type(e).__name__, e))
+    # the same between two libraries that were put together in memory (neither has a file path)
+    try:
+        M1, M2 = m['Lib'](la.scheme, {}), m['Lib'](la.scheme, {})
+        M1.Update(lb)
+        M2.Update(la)
+        M2.Update(M1, overwrite=True)
+        compare_group(ctx, M2[case['canon']]['thermochem'], wantB0, label, 'in-memory-libraries-overwrite')
+        compare_group(ctx, M1[case['canon']]['thermochem'], wantB0, label, 'in-memory-libraries-source')
+    except Exception as e:
+        ctx.fail('in-memory-update-raises:%s' % type(e).__name__, '[%s] %s: %s' % (label, type(e).__name__, e))
     try:
         la.Update(lb, overwrite=True)
     except Exception as e:
